@@ -1,44 +1,92 @@
 import PoryProofs.RetokTop
+import PoryProofs.RetokElabTop
+import PoryProofs.RetokEmit
 import PoryProofs.Properties.L1
 import PoryProofs.Properties.P2
+import PoryProofs.Properties.P2b
+import PoryProofs.RetokMS
+import PoryProofs.Properties.P2d
+import PoryProofs.RetokPSElab
 /-
-L2 — the whole-file grammar theorems of P2 stated about SOURCE TEXT.
+L2 — the whole-file grammar theorems of P2 / P2b / P2d stated about SOURCE TEXT.
 
-P2 proves `parseTokens env (printTops ts ++ [eofT]) = elabFile env ts (initState eofT)` and the compile theorems
-for TOKEN LISTS carried by a file tree `ts : List P2.STop`.  L1 proves that the text `render toks` lexes back to
-tokens with the same types and literals (the lexer's own positions).  This file joins the two: the lexer's
-records ARE the print of a re-decorated tree, so everything P2 says about printed trees holds for the text.
+P2 (P2b, P2d) prove `parseTokens env (printTops ts ++ [eofT]) = elabFile env ts (initState eofT)` and the compile /
+independence theorems for TOKEN LISTS carried by a file tree `ts`.  L1 proves that the text `render toks` lexes
+back to tokens with the same types and literals (the lexer's own positions).  This file joins the two: the
+lexer's records ARE the print of a re-decorated tree of the same shape, the re-decorated tree elaborates to the
+same program up to token positions, and with line markers off the emitter does not read positions — so text →
+output is characterised by the reference elaboration of the tree one started from.
 
-Helper modules (all new): PoryProofs/RetokAst.lean (position erasure `pe…` on the AST), Retok.lean (re-decoration
-of conditions, command arguments, movement items), RetokStmt.lean (statement grammar `StmtG.SStmt`),
-RetokTop.lean (file grammar `P2.STop`).
+Helper modules (all new): PoryProofs/RetokAst.lean (position erasure `pe…` on the AST: `peS`, `peProgram`, …),
+Retok.lean (re-decoration of conditions, command arguments, movement items), RetokStmt.lean (statement grammar
+`StmtG.SStmt`), RetokTop.lean (file grammar `P2.STop`), RetokElab.lean / RetokElabTop.lean (the reference
+elaboration commutes with erasure), RetokEmit.lean (the emitter with markers off ignores positions; follows
+ProgramMetaErase.lean), RetokMS.lean (`P2b.STopM`: + mapscripts), RetokPS.lean / RetokPSElab.lean (`P2d.STopP`:
++ poryswitch in movement / mart lists, `format()`, text poryswitch).
 
 DEFINITIONS
-* `erase t` (C02P) forgets the six position fields of a token; `SameText l u := l.map erase = u.map erase`.
-* `eL : List SStmt → List SStmt`, `eTop : STop → STop` — position erasure of surface trees (every token record
-  erased, every position record `{}`); `SameShape ts' ts := ts'.map eTop = ts.map eTop`: the same constructors
-  and the same token types and literals everywhere — the two files differ only in positions.
+* `erase t` (C02P) forgets the six position fields of a token; `SameText l u := l.map erase = u.map erase` (same
+  length, same type and literal pointwise).
+* `eL : List SStmt → List SStmt`, `eTop : STop → STop` (`eTopM`, `eTopP`) — position erasure of surface trees: every
+  token record erased, every position record `{}`.  `SameShape ts' ts := ts'.map eTop = ts.map eTop` (`SameShapeM`,
+  `SameShapeP`): the same constructors and the same token types and literals everywhere — the two files differ
+  only in positions.
+* `pe`, `peS`, `peProgram` (RetokAst.lean) — position erasure of the AST; `pePFail` / `peEFail` / `peCErr` erase the
+  positions of a located error (the message stays); `peEx f`, `peRes`, `peC` map a result (`.ok a ↦ .ok (f a)`,
+  `.error e ↦ .error (erased e)`).
+* `toResult` — how `main.go` reports the failures of the parser / emitter (`Pory.Result`); `linesOf` — the lines
+  of `Sections`; `pipeline o x` — the emitter after a parse result.
 
-PROVED
+PROVED (every statement below in full; all for the three grammars `STop` ⊂ `STopM` ⊂ `STopP`, suffix `_ms` / `_ps`)
 1. retok
 * `retok_stmts` : `SameText l (printStmts b) → ∃ b', printStmts b' = l ∧ eL b' = eL b ∧ (SWF b → SWF b')`
                   — the whole statement grammar of P1 (commands incl. string / `moves()` arguments, labels,
                   if / elif / else, while, do-while, break, continue, switch, auto-var switch, poryswitch,
                   auto-var conditions, the boolean grammar `SOr`).
-* `retok_tops`  : `SameText l (printTops ts) → ∃ ts', printTops ts' = l ∧ SameShape ts' ts ∧ (TWF ts → TWF ts')`
-                  — the file grammar `P2.STop` (script, raw, const, movement, mart, text).
+* `retok_tops`  : `SameText l (printTops ts) → ∃ ts', printTops ts' = l ∧ SameShape ts' ts ∧ (TWF ts → TWF ts')`;
+  `retok_topsM`, `retok_topsP` for files with mapscripts / the completed grammar.
+2. elab_retok
+* `elab_retok` (`_ms`, `_ps`) : `SameShape ts' ts → peEx peProgram (elabFile env ts' (initState eof')) =
+                  peEx peProgram (elabFile env ts (initState eof))` — the same `Program` up to the positions of
+                  the stored token records (same statements, command / scope ids, patches, hoisted texts and
+                  movements, names, values), or the same error message; from `elabFile_eTop :
+                  elabFile env (ts.map eTop) (peState s) = peEx peProgram (elabFile env ts s)`.
+* `emitProgram_pe` / `emitProgram_congr` (RetokEmit.lean) : `o.markers = false → peProgram p' = peProgram p →
+                  peRes (emitProgram o p') = peRes (emitProgram o p)` — all top-level kinds incl. mapscripts.
+* `compile_retok` (`_ms`, `_ps`) : markers off, `SameShape ts' ts`, `TWF ts`:
+                  `peC (linesOf (compileFile env o eof' ts')) = peC (linesOf (compileFile env o eof ts))` — the SAME
+                  LINES, or the same failure up to the positions of a located error; `compile_retok_ok`.
 3. source text
 * `lex_file`       : for a file whose printed tokens are `TokOK` / `AdjOK`, `Lexer.lexAll (render (printTops ts))`
-                     is `printTops ts' ++ [eof]` for a re-decorated `ts'` of the same shape (well-formed when `ts`
-                     is) and an `EOF` record `eof`.
+                     is `printTops ts' ++ [eof]` for a re-decorated `ts'` of the same shape and an `EOF` record.
 * `parse_source`   : `parseTokens env (lexAll (render (printTops ts))) = elabFile env ts' (initState eof)`.
-* `compile_source` : the model's pipeline from SOURCE TEXT, `compileLines env o src` (= `lexAll` + `parseTokens` +
-                     `emitProgram`; `compile` renders its lines), on `src = render (printTops ts)` is
-                     `P2.compileFile env o eof ts'` — the reference elaboration + post-passes + emitter on the
-                     re-decorated tree — with the errors translated as `main.go` does (`toResult`).  All emitter
-                     options.  `compile_source_text` : the same for `compile` (the rendered text).
+* `compile_source` : ALL emitter options (markers on or off): `compileLines env o src` (= `lexAll` + `parseTokens` +
+                     `emitProgram`; `compile` renders its lines) on `src = render (printTops ts)` is
+                     `toResult (linesOf (P2.compileFile env o eof ts'))` — the reference pipeline on the re-decorated
+                     tree; `compile_source_text` for `compile`.
+* `compile_source_ok` (`_ms`, `_ps`) : markers off: `compileLines env o (render (printTops ts)) = .ok L ↔
+                     linesOf (compileFile env o eofT ts) = .ok L` — in terms of the ORIGINAL tree (any positions, any
+                     `EOF` record); `compile_source_text_ok` (the text `compile` returns); `compile_source_error`
+                     (`_ms`, `_ps`): a failure of the reference compilation is the failure reported for the text, up
+                     to the positions of a located error.
+* `independence_source` (`_ms`, `_ps`) : P2's `tops_independent` for the SOURCE TEXTS of `ts1`, `ts2`, `ts1 ++ ts2`
+                     (markers off; same side condition `Indep` on the trees).
 
-See the end of the file for item 2 (`elab_retok`) and what is partial.
+PARTIAL / NOT PROVED (honest list)
+* Errors are compared UP TO POSITIONS (`peC`, `peCErr`: same constructor, same message, for an emitter label
+  clash the same token type and literal).  That the located error of the text sits at the lexer's record of the
+  CORRESPONDING token is not stated (it follows for each concrete case from `compile_source`, which is exact, on
+  the re-decorated tree).
+* `compile_retok` / `compile_source_ok` / `independence_source` need `o.markers = false` (`-lm=false` or no input
+  path): with markers on the output contains the line numbers of the tokens, i.e. it DOES depend on positions;
+  for that case `compile_source` (exact, on the re-decorated tree) is the statement, and C16 relates the two
+  outputs.
+* The hypotheses `TokOK` / `AdjOK` are on the printed tokens of the tree (decidable; L1 explains what they
+  exclude: `STRING` literals with a newline / `"`, two adjacent `STRING` tokens, …) and the text is L1's `render`
+  (tokens separated by single spaces, a string type glued to its literal); other layouts of the same tokens
+  are covered by C19b (layout independence of the lexer), not restated here.
+* `emitProgram_pe` is stated with `peRes` on both sides because `scriptChunks` / `optimizeChunkOrder` have the
+  type of functions that could return a located error (they never do; not proved, not needed).
 -/
 namespace Pory.L2
 open Pory Pory.Parser Pory.C02P Pory.StmtG Pory.TopParse Pory.Emit Pory.P2 Pory.L1
@@ -115,6 +163,366 @@ theorem compile_source_text (env : Env) (o : Opts) (ts : List STop) (hwf : TWF t
   exact ⟨ts', eof, h2, h3, h4, by unfold compile; rw [h5]; cases toResult (linesOf (compileFile env o eof ts')) <;> rfl⟩
 
 
+/-! ## 2. the re-decorated file compiles like the original -/
+
+/-- **elab_retok**: files of the same shape (e.g. a file and its re-decoration by the lexer) elaborate to the
+same `Program` up to the positions of the token records stored in it — same statements, command / scope ids,
+patches, hoisted texts and movements, names, values — or fail with the same message. -/
+theorem elab_retok (env : Env) {ts' ts : List STop} (h : SameShape ts' ts) (eof' eof : Tok) :
+    peEx peProgram (elabFile env ts' (initState eof')) = peEx peProgram (elabFile env ts (initState eof)) :=
+  elabFile_shape env h eof' eof
+
+theorem peEx_cases {α : Type} {f : α → α} {x' x : Except PFail α} (h : peEx f x' = peEx f x) :
+    (∃ e' e, x' = .error e' ∧ x = .error e ∧ pePFail e' = pePFail e) ∨
+      (∃ a' a, x' = .ok a' ∧ x = .ok a ∧ f a' = f a) := by
+  cases x' with
+  | error e' =>
+    cases x with
+    | error e => exact .inl ⟨e', e, rfl, rfl, by simpa using h⟩
+    | ok a => cases h
+  | ok a' =>
+    cases x with
+    | error e => cases h
+    | ok a => exact .inr ⟨a', a, rfl, rfl, by simpa using h⟩
+
+/-- the positions of a located error erased (the message stays) -/
+def peCErr : CErr → CErr
+  | .parse e => .parse (pePFail e)
+  | .emit e => .emit (peEFail e)
+
+/-- a compilation result up to the positions of a located error -/
+def peC {α : Type} : Except CErr α → Except CErr α
+  | .error e => .error (peCErr e)
+  | .ok a => .ok a
+
+/-- the emitter after the parser -/
+def pipeline (o : Opts) : Except PFail Program → Except CErr (List Line)
+  | .error e => .error (.parse e)
+  | .ok p =>
+    match emitProgram o p with
+    | .error e => .error (.emit e)
+    | .ok ls => .ok ls
+
+theorem compileToks_eq (env : Env) (o : Opts) (toks : List Tok) :
+    compileToks env o toks = pipeline o (parseTokens env toks) := by
+  unfold compileToks pipeline
+  cases parseTokens env toks <;> rfl
+
+/-- `compileFile` as lines is the emitter on the reference elaboration. -/
+theorem linesOf_compileFile (env : Env) (o : Opts) (eofT : Tok) (heof : eofT.type = .EOF) (ts : List STop)
+    (hwf : TWF ts) :
+    linesOf (compileFile env o eofT ts) = pipeline o (elabFile env ts (initState eofT)) := by
+  have h := compile_print env o eofT heof ts hwf
+  rw [compileToks_eq, parse_file_elab env eofT heof ts hwf] at h
+  rw [h]
+  cases compileFile env o eofT ts <;> rfl
+
+/-- programs equal up to token positions (or parse errors equal up to positions) are emitted alike -/
+theorem pipeline_congr (o : Opts) (hm : o.markers = false) {x' x : Except PFail Program}
+    (h : peEx peProgram x' = peEx peProgram x) : peC (pipeline o x') = peC (pipeline o x) := by
+  rcases peEx_cases h with ⟨e', e, h1, h2, h3⟩ | ⟨p', p, h1, h2, h3⟩
+  · simp only [h1, h2, pipeline, peC, peCErr, h3]
+  · simp only [h1, h2, pipeline]
+    rcases peRes_cases (emitProgram_congr o hm h3) with ⟨e', e, k1, k2, k3⟩ | ⟨ls, k1, k2⟩
+    · simp only [k1, k2, peC, peCErr, k3]
+    · simp only [k1, k2]
+
+theorem peC_ok_iff {α : Type} {x : Except CErr α} {a : α} : peC x = .ok a ↔ x = .ok a := by
+  cases x with
+  | error e => simp [peC]
+  | ok b => simp [peC]
+
+theorem toResult_ok_iff (c : Except CErr (List Line)) (L : List Line) : toResult c = .ok L ↔ c = .ok L := by
+  cases c with
+  | error e => rcases e with (_ | _ | _) | (_ | _ | _ | _) <;> simp [toResult]
+  | ok ls => simp [toResult]
+
+/-- **compile_retok**: with line markers off, files of the same shape compile to the SAME LINES, or fail with
+the same message (a located error is located at the corresponding token of the other file: `peC` compares the
+errors up to positions). -/
+theorem compile_retok (env : Env) (o : Opts) (hm : o.markers = false) {ts' ts : List STop}
+    (h : SameShape ts' ts) (hwf : TWF ts) (eof' eof : Tok) (heof' : eof'.type = .EOF) (heof : eof.type = .EOF) :
+    peC (linesOf (compileFile env o eof' ts')) = peC (linesOf (compileFile env o eof ts)) := by
+  rw [linesOf_compileFile env o eof' heof' ts' (twf_of_shape h hwf), linesOf_compileFile env o eof heof ts hwf]
+  exact pipeline_congr o hm (elab_retok env h eof' eof)
+
+/-- success case of `compile_retok`: the same lines. -/
+theorem compile_retok_ok (env : Env) (o : Opts) (hm : o.markers = false) {ts' ts : List STop}
+    (h : SameShape ts' ts) (hwf : TWF ts) (eof' eof : Tok) (heof' : eof'.type = .EOF) (heof : eof.type = .EOF)
+    (L : List Line) :
+    linesOf (compileFile env o eof' ts') = .ok L ↔ linesOf (compileFile env o eof ts) = .ok L := by
+  rw [← peC_ok_iff, compile_retok env o hm h hwf eof' eof heof' heof, peC_ok_iff]
+
+/-! ## 3b. source text, in terms of the ORIGINAL tree (markers off) -/
+
+/-- **compile_source, output form**: with line markers off, the model's pipeline on the source text of a
+well-formed renderable file succeeds exactly when the reference compilation of the file (the tree one started
+from, any positions, any `EOF` record) succeeds, with the same lines. -/
+theorem compile_source_ok (env : Env) (o : Opts) (hm : o.markers = false) (ts : List STop) (hwf : TWF ts)
+    (hok : ∀ t ∈ printTops ts, TokOK t) (hadj : AdjOK (printTops ts)) (eofT : Tok) (heof : eofT.type = .EOF)
+    (L : List Line) :
+    compileLines env o (L1.render (printTops ts)).toList = .ok L ↔
+      linesOf (compileFile env o eofT ts) = .ok L := by
+  obtain ⟨ts', eof, -, h2, h3, h4, h5⟩ := compile_source env o ts hwf hok hadj
+  rw [h5, ← compile_retok_ok env o hm h2 hwf eof eofT h4 heof L, toResult_ok_iff]
+
+/-- … and a failure is the failure of the reference compilation, up to the positions of a located error. -/
+theorem compile_source_error (env : Env) (o : Opts) (hm : o.markers = false) (ts : List STop) (hwf : TWF ts)
+    (hok : ∀ t ∈ printTops ts, TokOK t) (hadj : AdjOK (printTops ts)) (eofT : Tok) (heof : eofT.type = .EOF)
+    (e : CErr) (he : compileFile env o eofT ts = .error e) :
+    ∃ e', compileLines env o (L1.render (printTops ts)).toList = toResult (.error e') ∧ peCErr e' = peCErr e := by
+  obtain ⟨ts', eof, -, h2, h3, h4, h5⟩ := compile_source env o ts hwf hok hadj
+  have h := compile_retok env o hm h2 hwf eof eofT h4 heof
+  rw [he] at h
+  cases hc : compileFile env o eof ts' with
+  | error e' =>
+    rw [hc] at h h5
+    exact ⟨e', h5, by simpa [linesOf, peC] using h⟩
+  | ok S => rw [hc] at h; cases h
+
+/-- The text `compile` returns, from the reference compilation of the original tree. -/
+theorem compile_source_text_ok (env : Env) (o : Opts) (hm : o.markers = false) (ts : List STop) (hwf : TWF ts)
+    (hok : ∀ t ∈ printTops ts, TokOK t) (hadj : AdjOK (printTops ts)) (eofT : Tok) (heof : eofT.type = .EOF)
+    (S : Sections) (hS : compileFile env o eofT ts = .ok S) :
+    compile env o (L1.render (printTops ts)).toList = .ok (Emit.render S.lines) := by
+  have h := (compile_source_ok env o hm ts hwf hok hadj eofT heof S.lines).2 (by rw [hS]; rfl)
+  unfold compile
+  rw [h]
+
+/-- **independence_source**: P2's `tops_independent` for the SOURCE TEXTS of two files (markers off): the text
+of `ts1 ++ ts2` compiles iff the texts of both parts compile, and then to the section-wise concatenation. -/
+theorem independence_source (env : Env) (o : Opts) (hm : o.markers = false) (eofT : Tok) (heof : eofT.type = .EOF)
+    (ts1 ts2 : List STop) (hwf1 : TWF ts1) (hwf2 : TWF ts2) (hwf : TWF (ts1 ++ ts2))
+    (hok1 : ∀ t ∈ printTops ts1, TokOK t) (hadj1 : AdjOK (printTops ts1))
+    (hok2 : ∀ t ∈ printTops ts2, TokOK t) (hadj2 : AdjOK (printTops ts2))
+    (hok : ∀ t ∈ printTops (ts1 ++ ts2), TokOK t) (hadj : AdjOK (printTops (ts1 ++ ts2)))
+    (h : Indep env eofT ts1 ts2) (L : List Line) :
+    compileLines env o (L1.render (printTops (ts1 ++ ts2))).toList = .ok L ↔
+      ∃ S1 S2, compileLines env o (L1.render (printTops ts1)).toList = .ok S1.lines ∧
+        compileLines env o (L1.render (printTops ts2)).toList = .ok S2.lines ∧
+        compileFile env o eofT ts1 = .ok S1 ∧ compileFile env o eofT ts2 = .ok S2 ∧
+        L = (S1.append S2).lines := by
+  rw [compile_source_ok env o hm _ hwf hok hadj eofT heof]
+  constructor
+  · intro hL
+    cases hc : compileFile env o eofT (ts1 ++ ts2) with
+    | error e => rw [hc] at hL; cases hL
+    | ok S =>
+      rw [hc] at hL
+      simp only [linesOf, Except.ok.injEq] at hL
+      obtain ⟨S1, S2, h1, h2, rfl⟩ := (tops_independent env o eofT ts1 ts2 h S).1 hc
+      refine ⟨S1, S2, ?_, ?_, h1, h2, hL.symm⟩
+      · exact (compile_source_ok env o hm ts1 hwf1 hok1 hadj1 eofT heof _).2 (by rw [h1]; rfl)
+      · exact (compile_source_ok env o hm ts2 hwf2 hok2 hadj2 eofT heof _).2 (by rw [h2]; rfl)
+  · rintro ⟨S1, S2, -, -, h1, h2, rfl⟩
+    rw [(tops_independent env o eofT ts1 ts2 h _).2 ⟨S1, S2, h1, h2, rfl⟩]
+    rfl
+
+/-! ## 4. the same for files with `mapscripts` statements (`P2b.STopM`) -/
+section MapScripts
+open Pory.P2b
+
+theorem lex_file_ms (ts : List STopM) (hok : ∀ t ∈ printTopsM ts, TokOK t) (hadj : AdjOK (printTopsM ts)) :
+    ∃ ts' eof, Lexer.lexAll (L1.render (printTopsM ts)).toList = printTopsM ts' ++ [eof] ∧
+      SameShapeM ts' ts ∧ (TWFM ts → TWFM ts') ∧ eof.type = .EOF ∧ eof.lit = "" := by
+  obtain ⟨l, eof, h1, h2, -, h3, h4⟩ := lex_render_records (printTopsM ts) hok hadj
+  obtain ⟨ts', rfl, h5, h6⟩ := retok_topsM ts l h2
+  exact ⟨ts', eof, h1, h5, h6, h3, h4⟩
+
+/-- P2b on source text, parser. -/
+theorem parse_source_ms (env : Env) (ts : List STopM) (hwf : TWFM ts)
+    (hok : ∀ t ∈ printTopsM ts, TokOK t) (hadj : AdjOK (printTopsM ts)) :
+    ∃ ts' eof, Lexer.lexAll (L1.render (printTopsM ts)).toList = printTopsM ts' ++ [eof] ∧
+      SameShapeM ts' ts ∧ TWFM ts' ∧ eof.type = .EOF ∧
+      parseTokens env (Lexer.lexAll (L1.render (printTopsM ts)).toList) = elabFileM env ts' (initState eof) := by
+  obtain ⟨ts', eof, h1, h2, h3, h4, -⟩ := lex_file_ms ts hok hadj
+  exact ⟨ts', eof, h1, h2, h3 hwf, h4, by rw [h1]; exact parse_file_elab_ms env eof h4 ts' (h3 hwf)⟩
+
+/-- P2b on source text, whole pipeline (all emitter options). -/
+theorem compile_source_ms (env : Env) (o : Opts) (ts : List STopM) (hwf : TWFM ts)
+    (hok : ∀ t ∈ printTopsM ts, TokOK t) (hadj : AdjOK (printTopsM ts)) :
+    ∃ ts' eof, Lexer.lexAll (L1.render (printTopsM ts)).toList = printTopsM ts' ++ [eof] ∧
+      SameShapeM ts' ts ∧ TWFM ts' ∧ eof.type = .EOF ∧
+      compileLines env o (L1.render (printTopsM ts)).toList = toResult (linesOf (compileFileM env o eof ts')) := by
+  obtain ⟨ts', eof, h1, h2, h3, h4, -⟩ := lex_file_ms ts hok hadj
+  refine ⟨ts', eof, h1, h2, h3 hwf, h4, ?_⟩
+  rw [compileLines_eq, h1, compile_print_ms env o eof h4 ts' (h3 hwf)]
+  cases compileFileM env o eof ts' <;> rfl
+
+theorem elab_retok_ms (env : Env) {ts' ts : List STopM} (h : SameShapeM ts' ts) (eof' eof : Tok) :
+    peEx peProgram (elabFileM env ts' (initState eof')) = peEx peProgram (elabFileM env ts (initState eof)) :=
+  elabFileM_shape env h eof' eof
+
+theorem linesOf_compileFileM (env : Env) (o : Opts) (eofT : Tok) (heof : eofT.type = .EOF) (ts : List STopM)
+    (hwf : TWFM ts) :
+    linesOf (compileFileM env o eofT ts) = pipeline o (elabFileM env ts (initState eofT)) := by
+  have h := compile_print_ms env o eofT heof ts hwf
+  rw [compileToks_eq, parse_file_elab_ms env eofT heof ts hwf] at h
+  rw [h]
+  cases compileFileM env o eofT ts <;> rfl
+
+theorem compile_retok_ms (env : Env) (o : Opts) (hm : o.markers = false) {ts' ts : List STopM}
+    (h : SameShapeM ts' ts) (hwf : TWFM ts) (eof' eof : Tok) (heof' : eof'.type = .EOF) (heof : eof.type = .EOF) :
+    peC (linesOf (compileFileM env o eof' ts')) = peC (linesOf (compileFileM env o eof ts)) := by
+  rw [linesOf_compileFileM env o eof' heof' ts' (twfM_of_shape h hwf), linesOf_compileFileM env o eof heof ts hwf]
+  exact pipeline_congr o hm (elab_retok_ms env h eof' eof)
+
+/-- text → lines, in terms of the original tree (markers off), files with `mapscripts`. -/
+theorem compile_source_ok_ms (env : Env) (o : Opts) (hm : o.markers = false) (ts : List STopM) (hwf : TWFM ts)
+    (hok : ∀ t ∈ printTopsM ts, TokOK t) (hadj : AdjOK (printTopsM ts)) (eofT : Tok) (heof : eofT.type = .EOF)
+    (L : List Line) :
+    compileLines env o (L1.render (printTopsM ts)).toList = .ok L ↔
+      linesOf (compileFileM env o eofT ts) = .ok L := by
+  obtain ⟨ts', eof, -, h2, h3, h4, h5⟩ := compile_source_ms env o ts hwf hok hadj
+  rw [h5, toResult_ok_iff, ← peC_ok_iff, compile_retok_ms env o hm h2 hwf eof eofT h4 heof, peC_ok_iff]
+
+theorem compile_source_error_ms (env : Env) (o : Opts) (hm : o.markers = false) (ts : List STopM) (hwf : TWFM ts)
+    (hok : ∀ t ∈ printTopsM ts, TokOK t) (hadj : AdjOK (printTopsM ts)) (eofT : Tok) (heof : eofT.type = .EOF)
+    (e : CErr) (he : compileFileM env o eofT ts = .error e) :
+    ∃ e', compileLines env o (L1.render (printTopsM ts)).toList = toResult (.error e') ∧
+      peCErr e' = peCErr e := by
+  obtain ⟨ts', eof, -, h2, h3, h4, h5⟩ := compile_source_ms env o ts hwf hok hadj
+  have h := compile_retok_ms env o hm h2 hwf eof eofT h4 heof
+  rw [he] at h
+  cases hc : compileFileM env o eof ts' with
+  | error e' =>
+    rw [hc] at h h5
+    exact ⟨e', h5, by simpa [linesOf, peC] using h⟩
+  | ok S => rw [hc] at h; cases h
+
+/-- `tops_independent_ms` for source texts (markers off). -/
+theorem independence_source_ms (env : Env) (o : Opts) (hm : o.markers = false) (eofT : Tok)
+    (heof : eofT.type = .EOF) (ts1 ts2 : List STopM) (hwf1 : TWFM ts1) (hwf2 : TWFM ts2) (hwf : TWFM (ts1 ++ ts2))
+    (hok1 : ∀ t ∈ printTopsM ts1, TokOK t) (hadj1 : AdjOK (printTopsM ts1))
+    (hok2 : ∀ t ∈ printTopsM ts2, TokOK t) (hadj2 : AdjOK (printTopsM ts2))
+    (hok : ∀ t ∈ printTopsM (ts1 ++ ts2), TokOK t) (hadj : AdjOK (printTopsM (ts1 ++ ts2)))
+    (h : IndepM env eofT ts1 ts2) (L : List Line) :
+    compileLines env o (L1.render (printTopsM (ts1 ++ ts2))).toList = .ok L ↔
+      ∃ S1 S2, compileLines env o (L1.render (printTopsM ts1)).toList = .ok S1.lines ∧
+        compileLines env o (L1.render (printTopsM ts2)).toList = .ok S2.lines ∧
+        compileFileM env o eofT ts1 = .ok S1 ∧ compileFileM env o eofT ts2 = .ok S2 ∧
+        L = (S1.append S2).lines := by
+  rw [compile_source_ok_ms env o hm _ hwf hok hadj eofT heof]
+  constructor
+  · intro hL
+    cases hc : compileFileM env o eofT (ts1 ++ ts2) with
+    | error e => rw [hc] at hL; cases hL
+    | ok S =>
+      rw [hc] at hL
+      simp only [linesOf, Except.ok.injEq] at hL
+      obtain ⟨S1, S2, h1, h2, rfl⟩ := (tops_independent_ms env o eofT ts1 ts2 h S).1 hc
+      refine ⟨S1, S2, ?_, ?_, h1, h2, hL.symm⟩
+      · exact (compile_source_ok_ms env o hm ts1 hwf1 hok1 hadj1 eofT heof _).2 (by rw [h1]; rfl)
+      · exact (compile_source_ok_ms env o hm ts2 hwf2 hok2 hadj2 eofT heof _).2 (by rw [h2]; rfl)
+  · rintro ⟨S1, S2, -, -, h1, h2, rfl⟩
+    rw [(tops_independent_ms env o eofT ts1 ts2 h _).2 ⟨S1, S2, h1, h2, rfl⟩]
+    rfl
+
+end MapScripts
+
+/-! ## 5. the same for the completed grammar (`P2d.STopP`: poryswitch in lists, `format()`, text poryswitch) -/
+section Completed
+open Pory.P2b Pory.P2d
+
+theorem lex_file_ps (ts : List STopP) (hok : ∀ t ∈ printTopsP ts, TokOK t) (hadj : AdjOK (printTopsP ts)) :
+    ∃ ts' eof, Lexer.lexAll (L1.render (printTopsP ts)).toList = printTopsP ts' ++ [eof] ∧
+      SameShapeP ts' ts ∧ (TWFP ts → TWFP ts') ∧ eof.type = .EOF ∧ eof.lit = "" := by
+  obtain ⟨l, eof, h1, h2, -, h3, h4⟩ := lex_render_records (printTopsP ts) hok hadj
+  obtain ⟨ts', rfl, h5, h6⟩ := retok_topsP ts l h2
+  exact ⟨ts', eof, h1, h5, h6, h3, h4⟩
+
+/-- P2d on source text, parser. -/
+theorem parse_source_ps (env : Env) (ts : List STopP) (hwf : TWFP ts)
+    (hok : ∀ t ∈ printTopsP ts, TokOK t) (hadj : AdjOK (printTopsP ts)) :
+    ∃ ts' eof, Lexer.lexAll (L1.render (printTopsP ts)).toList = printTopsP ts' ++ [eof] ∧
+      SameShapeP ts' ts ∧ TWFP ts' ∧ eof.type = .EOF ∧
+      parseTokens env (Lexer.lexAll (L1.render (printTopsP ts)).toList) = elabFileP env ts' (initState eof) := by
+  obtain ⟨ts', eof, h1, h2, h3, h4, -⟩ := lex_file_ps ts hok hadj
+  exact ⟨ts', eof, h1, h2, h3 hwf, h4, by rw [h1]; exact parse_file_elab_ps env eof h4 ts' (h3 hwf)⟩
+
+/-- P2d on source text, whole pipeline (all emitter options). -/
+theorem compile_source_ps (env : Env) (o : Opts) (ts : List STopP) (hwf : TWFP ts)
+    (hok : ∀ t ∈ printTopsP ts, TokOK t) (hadj : AdjOK (printTopsP ts)) :
+    ∃ ts' eof, Lexer.lexAll (L1.render (printTopsP ts)).toList = printTopsP ts' ++ [eof] ∧
+      SameShapeP ts' ts ∧ TWFP ts' ∧ eof.type = .EOF ∧
+      compileLines env o (L1.render (printTopsP ts)).toList = toResult (linesOf (compileFileP env o eof ts')) := by
+  obtain ⟨ts', eof, h1, h2, h3, h4, -⟩ := lex_file_ps ts hok hadj
+  refine ⟨ts', eof, h1, h2, h3 hwf, h4, ?_⟩
+  rw [compileLines_eq, h1, compile_print_ps env o eof h4 ts' (h3 hwf)]
+  cases compileFileP env o eof ts' <;> rfl
+
+theorem elab_retok_ps (env : Env) {ts' ts : List STopP} (h : SameShapeP ts' ts) (eof' eof : Tok) :
+    peEx peProgram (elabFileP env ts' (initState eof')) = peEx peProgram (elabFileP env ts (initState eof)) :=
+  elabFileP_shape env h eof' eof
+
+theorem linesOf_compileFileP (env : Env) (o : Opts) (eofT : Tok) (heof : eofT.type = .EOF) (ts : List STopP)
+    (hwf : TWFP ts) :
+    linesOf (compileFileP env o eofT ts) = pipeline o (elabFileP env ts (initState eofT)) := by
+  have h := compile_print_ps env o eofT heof ts hwf
+  rw [compileToks_eq, parse_file_elab_ps env eofT heof ts hwf] at h
+  rw [h]
+  cases compileFileP env o eofT ts <;> rfl
+
+theorem compile_retok_ps (env : Env) (o : Opts) (hm : o.markers = false) {ts' ts : List STopP}
+    (h : SameShapeP ts' ts) (hwf : TWFP ts) (eof' eof : Tok) (heof' : eof'.type = .EOF) (heof : eof.type = .EOF) :
+    peC (linesOf (compileFileP env o eof' ts')) = peC (linesOf (compileFileP env o eof ts)) := by
+  rw [linesOf_compileFileP env o eof' heof' ts' (twfP_of_shape h hwf), linesOf_compileFileP env o eof heof ts hwf]
+  exact pipeline_congr o hm (elab_retok_ps env h eof' eof)
+
+/-- text → lines, in terms of the original tree (markers off), completed grammar. -/
+theorem compile_source_ok_ps (env : Env) (o : Opts) (hm : o.markers = false) (ts : List STopP) (hwf : TWFP ts)
+    (hok : ∀ t ∈ printTopsP ts, TokOK t) (hadj : AdjOK (printTopsP ts)) (eofT : Tok) (heof : eofT.type = .EOF)
+    (L : List Line) :
+    compileLines env o (L1.render (printTopsP ts)).toList = .ok L ↔
+      linesOf (compileFileP env o eofT ts) = .ok L := by
+  obtain ⟨ts', eof, -, h2, h3, h4, h5⟩ := compile_source_ps env o ts hwf hok hadj
+  rw [h5, toResult_ok_iff, ← peC_ok_iff, compile_retok_ps env o hm h2 hwf eof eofT h4 heof, peC_ok_iff]
+
+theorem compile_source_error_ps (env : Env) (o : Opts) (hm : o.markers = false) (ts : List STopP) (hwf : TWFP ts)
+    (hok : ∀ t ∈ printTopsP ts, TokOK t) (hadj : AdjOK (printTopsP ts)) (eofT : Tok) (heof : eofT.type = .EOF)
+    (e : CErr) (he : compileFileP env o eofT ts = .error e) :
+    ∃ e', compileLines env o (L1.render (printTopsP ts)).toList = toResult (.error e') ∧
+      peCErr e' = peCErr e := by
+  obtain ⟨ts', eof, -, h2, h3, h4, h5⟩ := compile_source_ps env o ts hwf hok hadj
+  have h := compile_retok_ps env o hm h2 hwf eof eofT h4 heof
+  rw [he] at h
+  cases hc : compileFileP env o eof ts' with
+  | error e' =>
+    rw [hc] at h h5
+    exact ⟨e', h5, by simpa [linesOf, peC] using h⟩
+  | ok S => rw [hc] at h; cases h
+
+/-- `tops_independent_ps` for source texts (markers off, environment errors on). -/
+theorem independence_source_ps (env : Env) (henv : env.envErrors = true) (o : Opts) (hm : o.markers = false)
+    (eofT : Tok) (heof : eofT.type = .EOF) (ts1 ts2 : List STopP) (hwf1 : TWFP ts1) (hwf2 : TWFP ts2)
+    (hwf : TWFP (ts1 ++ ts2))
+    (hok1 : ∀ t ∈ printTopsP ts1, TokOK t) (hadj1 : AdjOK (printTopsP ts1))
+    (hok2 : ∀ t ∈ printTopsP ts2, TokOK t) (hadj2 : AdjOK (printTopsP ts2))
+    (hok : ∀ t ∈ printTopsP (ts1 ++ ts2), TokOK t) (hadj : AdjOK (printTopsP (ts1 ++ ts2)))
+    (h : IndepP env eofT ts1 ts2) (L : List Line) :
+    compileLines env o (L1.render (printTopsP (ts1 ++ ts2))).toList = .ok L ↔
+      ∃ S1 S2, compileLines env o (L1.render (printTopsP ts1)).toList = .ok S1.lines ∧
+        compileLines env o (L1.render (printTopsP ts2)).toList = .ok S2.lines ∧
+        compileFileP env o eofT ts1 = .ok S1 ∧ compileFileP env o eofT ts2 = .ok S2 ∧
+        L = (S1.append S2).lines := by
+  rw [compile_source_ok_ps env o hm _ hwf hok hadj eofT heof]
+  constructor
+  · intro hL
+    cases hc : compileFileP env o eofT (ts1 ++ ts2) with
+    | error e => rw [hc] at hL; cases hL
+    | ok S =>
+      rw [hc] at hL
+      simp only [linesOf, Except.ok.injEq] at hL
+      obtain ⟨S1, S2, h1, h2, rfl⟩ := (tops_independent_ps env henv o eofT ts1 ts2 h S).1 hc
+      refine ⟨S1, S2, ?_, ?_, h1, h2, hL.symm⟩
+      · exact (compile_source_ok_ps env o hm ts1 hwf1 hok1 hadj1 eofT heof _).2 (by rw [h1]; rfl)
+      · exact (compile_source_ok_ps env o hm ts2 hwf2 hok2 hadj2 eofT heof _).2 (by rw [h2]; rfl)
+  · rintro ⟨S1, S2, -, -, h1, h2, rfl⟩
+    rw [(tops_independent_ps env henv o eofT ts1 ts2 h _).2 ⟨S1, S2, h1, h2, rfl⟩]
+    rfl
+
+end Completed
+
 /-! ## non-vacuity -/
 section Example
 
@@ -157,6 +565,98 @@ example (env : Env) (o : Opts) :
   | .ok text => text == "A::\n\tgoto A_2\n\nA_1:\n\tmsgbox A_Text_0\n\treturn\n\nA_2:\n\tgoto_if_set F, A_1\n\treturn\n\n\nM:\n\twalk_up\n\twalk_up\n\tface_down\n\tstep_end\n\nA_Text_0:\n\t.string \"Hi$\"\n"
   | _ => false)
 
+/-- the reference compilation of the ORIGINAL tree (all positions zero) -/
+theorem exFile2_compiled :
+    compileFile {} P2.exO P2.eofT exFile2 = .ok { tops := [P2.linesA, P2.linesM], inl := [P2.linesT] } :=
+  P2.toOption_some (by decide)
+
+/-- **`compile` on the source text, by the theorems** (lexer + parser + emitter of the model, no evaluation of
+the lexer or parser): the rendered lines of the reference compilation of the original tree, although the
+lexer's records carry other positions than the tree's. -/
+example :
+    compile {} P2.exO exSrc2.toList =
+      .ok (Emit.render (Sections.lines { tops := [P2.linesA, P2.linesM], inl := [P2.linesT] })) := by
+  have h := compile_source_text_ok {} P2.exO rfl exFile2 exFile2_wf exFile2_ok exFile2_adj P2.eofT rfl _
+    exFile2_compiled
+  rw [exSrc2_eq] at h
+  exact h
+
+/-- `compile_retok` on two decorations of the same file: `script X { break }` with P2's positions and without. -/
+example :
+    peC (linesOf (compileFile {} P2.exO P2.eofT [P2.exBad])) =
+      peC (linesOf (compileFile {} P2.exO P2.eofT [eTop P2.exBad])) :=
+  compile_retok {} P2.exO rfl (ts' := [P2.exBad]) (ts := [eTop P2.exBad]) (by unfold SameShape; rfl) (by decide) _ _ rfl rfl
+
+/-- **a located error from source text**: `script X { break }` is rejected with the message of the reference
+elaboration (the located error of the tree, up to positions). -/
+example :
+    ∃ e', compileLines {} P2.exO "script X { break }".toList = toResult (.error e') ∧
+      peCErr e' = .parse (pePFail (newParseError (tk .BREAK "break")
+        "'break' statement outside of any break-able scope")) := by
+  have hsrc : L1.render (printTops [P2.exBad]) = "script X { break }" := by decide +kernel
+  obtain ⟨e', h1, h2⟩ := compile_source_error {} P2.exO rfl [P2.exBad] (by decide) (by decide +kernel) (by decide)
+    P2.eofT rfl (.parse (newParseError (tkp ⟨3, 2, 2, 3, 7, 7⟩ .BREAK "break")
+      "'break' statement outside of any break-able scope")) rfl
+  rw [hsrc] at h1
+  exact ⟨e', h1, h2⟩
+
+#guard (match compile {} P2.exO "script X { break }".toList with
+  | .parseError e => e.msg == "'break' statement outside of any break-able scope" && e.lineStart == 1
+  | _ => false)
+
+/-- **independence_source** on the texts of `[exA]` and `[exM]`. -/
+example (L : List Line) :
+    compileLines {} P2.exO (L1.render (printTops ([P2.exA] ++ [P2.exM]))).toList = .ok L ↔
+      ∃ S1 S2, compileLines {} P2.exO (L1.render (printTops [P2.exA])).toList = .ok S1.lines ∧
+        compileLines {} P2.exO (L1.render (printTops [P2.exM])).toList = .ok S2.lines ∧
+        compileFile {} P2.exO P2.eofT [P2.exA] = .ok S1 ∧ compileFile {} P2.exO P2.eofT [P2.exM] = .ok S2 ∧
+        L = (S1.append S2).lines :=
+  independence_source {} P2.exO rfl P2.eofT rfl [P2.exA] [P2.exM] (by decide) (by decide) (by decide)
+    (by decide +kernel) (by decide) (by decide +kernel) (by decide) exFile2_ok exFile2_adj (by decide) L
+
+/-! #### files with `mapscripts` (P2b's example: a script and a `mapscripts` statement with an inline script and a
+table with an inline row) -/
+
+def exSrcMS : String :=
+  "script A { if ( flag ( F ) ) { msgbox ( \"Hi\" ) } } mapscripts M { MAP_SCRIPT_ON_LOAD : OnLoad " ++
+  "MAP_SCRIPT_ON_TRANSITION { msgbox ( \"Yo\" ) } MAP_SCRIPT_ON_FRAME_TABLE [ VAR_A , 1 : Frame1 VAR_B , 2 { foo } ] }"
+
+theorem exSrcMS_eq : L1.render (P2b.printTopsM P2b.exFile) = exSrcMS := by decide +kernel
+
+/-- `compile` on the source text of the file with `mapscripts`, by the theorems: the lines of P2b's reference
+compilation. -/
+example :
+    compileLines {} P2b.exO exSrcMS.toList =
+      .ok (Sections.lines { tops := [P2b.linesA, P2b.linesMS], inl := [P2b.linesTA, P2b.linesTM] }) := by
+  have h := (compile_source_ok_ms {} P2b.exO rfl P2b.exFile P2b.exFile_wf (by decide +kernel) (by decide)
+    P2b.eofT rfl _).2 (by rw [P2b.exFile_compiled]; rfl)
+  rw [exSrcMS_eq] at h
+  exact h
+
+#guard (match compile {} P2b.exO exSrcMS.toList with
+  | .ok text => text == Emit.render (Sections.lines
+      { tops := [P2b.linesA, P2b.linesMS], inl := [P2b.linesTA, P2b.linesTM] })
+  | _ => false)
+
+/-! #### the completed grammar (P2d's example: raw, a movement and a mart with nested poryswitches, a text
+poryswitch with `format()`; switches `GAME=EMERALD, LANG=DE`) -/
+
+theorem exFileA_ok : ∀ t ∈ P2d.printTopsP P2d.exFileA, TokOK t := by decide +kernel
+theorem exFileA_adj : AdjOK (P2d.printTopsP P2d.exFileA) := by decide
+
+/-- The model's pipeline on the SOURCE TEXT of P2d's four-statement file, by the theorems: the lines of the
+reference compilation (`P2d.exFileA_compiled_1`). -/
+example :
+    compileLines P2d.env1 P2d.exO (L1.render (P2d.printTopsP P2d.exFileA)).toList =
+      .ok (Sections.lines { tops := [P2d.linesR, P2d.linesM1, P2d.linesS], stm := [P2d.linesT1] }) :=
+  (compile_source_ok_ps P2d.env1 P2d.exO rfl P2d.exFileA (by decide) exFileA_ok exFileA_adj P2d.eofT rfl _).2
+    (by rw [P2d.exFileA_compiled_1]; rfl)
+
+#guard (match compile P2d.env1 P2d.exO (L1.render (P2d.printTopsP P2d.exFileA)).toList with
+  | .ok text => text == Emit.render (Sections.lines
+      { tops := [P2d.linesR, P2d.linesM1, P2d.linesS], stm := [P2d.linesT1] })
+  | _ => false)
+
 end Example
 
 #print axioms retok_stmts
@@ -165,5 +665,26 @@ end Example
 #print axioms parse_source
 #print axioms compile_source
 #print axioms compile_source_text
+#print axioms elab_retok
+#print axioms compile_retok
+#print axioms compile_retok_ok
+#print axioms compile_source_ok
+#print axioms compile_source_error
+#print axioms compile_source_text_ok
+#print axioms independence_source
+#print axioms compile_source_ms
+#print axioms compile_retok_ms
+#print axioms compile_source_ok_ms
+#print axioms compile_source_error_ms
+#print axioms independence_source_ms
+#print axioms retok_topsM
+#print axioms compile_source_ps
+#print axioms compile_retok_ps
+#print axioms compile_source_ok_ps
+#print axioms compile_source_error_ps
+#print axioms independence_source_ps
+#print axioms retok_topsP
+#print axioms emitProgram_pe
+#print axioms elabFile_eTop
 
 end Pory.L2
